@@ -1,7 +1,7 @@
 """C06 - truncated input is reported as insufficient data at every cut point."""
 from harness import core, codec, universe as U, implrun as I, streams, gen
 from harness.coqio import cbytes, cnat
-from harness.props.c05 import gen_streams
+from harness.props.c05 import gen_streams, grid_streams
 from pyasn1 import error
 
 
@@ -26,10 +26,11 @@ def classify_prefix(cdc, data, k, spec):
 
 def run(ctx):
     ctx.rule = ('every proper prefix e[:k] of valid BER (definite/indefinite/chunked), CER and DER encodings, presented as bytes (one-shot), '
-                'as an open non-blocking stream and as a stream closed after byte k, each both as a plain stream object and as an io.BytesIO subclass; with and without guiding type; non-trivial = k > 0')
+                'as an open non-blocking stream and as a stream closed after byte k, each both as a plain stream object and as an io.BytesIO subclass; with and without guiding type; besides random types, one encoding of every base kind (every simple, string, time and container type), plain and under an EXPLICIT tag, per codec, cut at every octet; non-trivial = k > 0')
     search_only = getattr(ctx, 'search_only', False)
     exprs, meta = [], []
     sts = [s for s in gen_streams(ctx, ctx.n(60, 600)) if len(s[2]) == 1]
+    sts += grid_streams(ctx, every=2 if ctx.tier == 'quick' else 1)       # every kind x {plain, EXPLICIT} x codec, cut at every octet
     for cdc, T, cs, data in sts:
         c = cs[0]
         full = I.run_decode(cdc, data, asn1Spec=c.spec)
